@@ -103,7 +103,7 @@ class LG:
             "decoy_after", "decoy_prevline", "decoy_nextline", "oneline_def_lambda", "in_list", "in_dict", "multiline_body", "semicolon", "comment_lines", "kwarg_after",
             "trailing_comma", "chain_multibody", "nested_call_arg", "cond_expr", "backslash", "comprehension", "where_single", "where_chain", "lambda_own_line_chain",
             "decoy_default_arg", "string_noise_line", "def_by_name", "def_by_name_docstring", "lambda_var", "three_chain_args",
-            "cond_lambda_arg", "list_lambda_arg", "or_lambda_arg", "dict_lambda_arg", "wrapped_lambda_arg",
+            "cond_lambda_arg", "cond_lambda_arg", "cond_lambda_two_calls", "cond_lambda_two_calls", "list_lambda_arg", "or_lambda_arg", "dict_lambda_arg", "wrapped_lambda_arg",
         ])
         p = self.pname()
         B = lambda **kw: self.body(p, **kw)  # noqa
@@ -206,8 +206,11 @@ class LG:
             return t, False, True, f"r = [ds.Select(lambda {p}: {b}) for _ in range(1)][0]", f
         if t == "cond_lambda_arg":
             (b1, f), (b2, _) = B(), B()
-            flag = r.choice(["True", "False"])
+            flag = r.choice(["FLAG[0]", "not FLAG[0]"])
             return t, False, True, f"r = ds.Select((lambda {p}: {b1}) if {flag} else (lambda {p}: {b2}))", f
+        if t == "cond_lambda_two_calls":
+            (b1, f), (b2, _), (b3, _), (b4, _) = B(where=True), B(where=True), B(), B()
+            return t, False, True, f"r = ds.Where((lambda {p}: {b1}) if FLAG[0] else (lambda {p}: {b2})).Select((lambda {p}: {b3}) if FLAG[1] else (lambda {p}: {b4}))", f
         if t == "list_lambda_arg":
             (b1, f), (b2, _) = B(), B()
             return t, False, True, f"r = ds.Select([lambda {p}: {b1}, lambda {p}: {b2}][{r.randint(0, 1)}])", f
@@ -271,6 +274,7 @@ class LG:
 
 HEADER = modgen.DS_HEADER + '''
 import contextlib
+FLAG = [True, True]
 def helper(f, *a): return True
 def keep(a, b): return b
 def deco(f): return f
@@ -332,13 +336,19 @@ def run_file(ctx, rnd, ncases):
         ctx.notes.setdefault("syntax_errors", []).append(str(e))
         return
     m = modgen.load(src, "c03")
-    for i, (t, cx, sup, nt, form, text) in enumerate(cases):
-        del EVENTS[:]
-        try:
-            getattr(m, f"case{i}")(m.DS())
-        except Exception:
-            pass
-        judge_events(ctx, list(EVENTS), t, cx, sup, nt, form, text)
+    # every case runs several times (state kept between calls must not matter); the flags that select
+    # between lambdas on a line change in between
+    for flags in ([True, True], [False, False], [True, False], [False, True]):
+        m.FLAG[:] = flags
+        for i, (t, cx, sup, nt, form, text) in enumerate(cases):
+            if flags != [True, True] and "FLAG" not in text and ctx.rnd.random() < 0.6:
+                continue
+            del EVENTS[:]
+            try:
+                getattr(m, f"case{i}")(m.DS())
+            except Exception:
+                pass
+            judge_events(ctx, list(EVENTS), t, cx, sup, nt, form, text + f"# FLAG={flags}")
     modgen.unload(m)
 
 
